@@ -200,6 +200,31 @@ def _is_path_uuid(ctx, f, name, depth=0):
     return base >= 1
 
 
+def _in_handler_names(ctx, impl, c, names, depth=0):
+    """The names ``names`` of module-level function c, read in the names of
+    handler impl: parameters of c are replaced by the names in the
+    arguments its callers (the handler, its closures, its module-level
+    transaction helpers) bind to them, locals of those callers resolved
+    through their one definition."""
+    if depth > 3:
+        return names
+    tr = set()
+    callers = [impl] + [h_ for h_ in c04.s_closures(ctx, impl) if h_ is not c]
+    for g_ in callers:
+        for s_ in ctx.cg.calls_in(g_):
+            if c not in s_.callees:
+                continue
+            for pn in names & set(c.params):
+                a_ = C.arg_for_param(s_.node, c, pn)
+                if a_ is None:
+                    continue
+                got = C.names_in(C.inline_locals(g_, a_))
+                if g_ is not impl and g_.parent is None:
+                    got = _in_handler_names(ctx, impl, g_, got, depth + 1)
+                tr |= got
+    return (names - set(c.params)) | tr
+
+
 def r124(ctx, R):
     prog = ctx.prog
     n = 0
@@ -280,16 +305,7 @@ def r124(ctx, R):
                     # handler receives the handler's values as parameters:
                     # read the argument in the handler's names
                     if c.parent is None and argn & set(c.params):
-                        tr = set()
-                        for g_ in [impl] + [h_ for h_ in prog.funcs
-                                            if h_.parent is impl]:
-                            for s_ in ctx.cg.calls_in(g_):
-                                if c in s_.callees:
-                                    for pn in argn & set(c.params):
-                                        a_ = C.arg_for_param(s_.node, c, pn)
-                                        if a_ is not None:
-                                            tr |= C.names_in(a_)
-                        argn = (argn - set(c.params)) | tr
+                        argn = _in_handler_names(ctx, impl, c, argn)
                     ifs = C.guarding_ifs(C.stmt_of(dc[0]), c.node)
                     cond_ok = all(isinstance(i.test, ast.Name)
                                   and i.test.id in names and br == 'body'
